@@ -786,10 +786,12 @@ def fam_rotary(st):
     ctx, rng = st.ctx, st.ctx.rng
     n = 12 if ctx.tier == "quick" else 150
     MAXI = 2 ** 63 - 1
-    for i in range(n):
-        std = i % 2 == 1
+    for i in range(n + 4):
+        std = i % 2 == 1 or i >= n           # the last four: every batch spelling of freqs, always present
         fam = "rules.fusion:rotary_embedding" if std else "rotary_embedding"
         B, H, S = rng.randrange(1, 3), rng.randrange(1, 5), rng.randrange(1, 5)
+        if i >= n:
+            B = 2
         D = pick(rng, [2, 4, 6, 8, 16]) if std else pick(rng, [2, 4, 5, 6, 8, 16])
         h = D // 2
         dt = pick(rng, ["float32", "float32", "float16"])
@@ -803,7 +805,10 @@ def fam_rotary(st):
         rank, d1 = 4, H
         if std:
             p = dict(dtype=dt, xshape=[B, H, S, D], fshape=[B, S, h], slices=slices)
-            bk = rng.randrange(5)
+            bk = rng.randrange(5) if i < n else i - n
+            if i >= n:
+                near, slices = None, (0, h, h, MAXI)
+                p["slices"] = slices
             if bk == 0:
                 p["fshape"] = [1, S, h]                                   # batch broadcast in the pattern (the fixed finding's class)
             elif bk == 1:
@@ -825,7 +830,9 @@ def fam_rotary(st):
         if near in ("uneven-halves", "start-not-0") and D % 2 == 1:
             near = None if slices[:3] == (0, h, h) else near
         expect = near is None
-        fired, m2 = probe(st, fam, g, fn, p, expect=expect, fused_ops=(fused,), cls=(fam, dt, D % 2, D, near, slices[3] == MAXI))
+        bfind = "C19:rules.fusion:rotary_embedding:freqs-batch-broadcast" if std and p["fshape"][0] == 1 and B > 1 else None   # (fixed) class
+        fired, m2 = probe(st, fam, g, fn, p, expect=expect, finding=bfind, fused_ops=(fused,),
+                          cls=(fam, dt, D % 2, D, near, slices[3] == MAXI, tuple(map(str, p.get("decl_fshape", p.get("fshape", ())))) if std else None))
         if fired is None:
             continue
         obs = None
